@@ -47,8 +47,9 @@ LEVEL_TEXT = ("Proved for all sizes/inputs of the model: C04_ctrl_state (X conju
               "k<=5.  Oracle: Operator(definition) vs reference controlled-U, k<=8 (10 thorough).")
 LEVEL_NOTE = ("Trusted: Lean kernel (axioms propext, Classical.choice, Quot.sound); hand model = code beyond the explored sizes; "
               "np.linalg.eig of a 2x2 (eigenbasis path of Ldmcsu: tied and tested, not proved), qiskit _params_zyz (specified: "
-              "U = RZ(phi) RY(theta) RZ(lam), validated each run), UnitaryGate, .control(1), mcx, inverse(); float: isclose(x,0.0) "
-              "with default tolerances is x == 0.  MultiTargetMCSU2 is claimed only for unitaries with a real main or real "
+              "U = RZ(phi) RY(theta) RZ(lam), validated each run), UnitaryGate, .control(1), mcx, inverse(); float: the branch tests "
+              "isclose(x.imag, 0.0, abs_tol=1e-12) are read as x.imag = 0 by the model, the driver sets imaginary parts up to 1e-12 "
+              "to 0 before calling it (dust cases tied).  MultiTargetMCSU2 is claimed only for unitaries with a real main or real "
               "secondary diagonal (rotations, +-I, +-iX, +-iZ, iY...): for a general SU(2) the code raises ValueError (no "
               "eigenbasis path) — outside the property's quantifier ('each listed rotation').")
 LEAN_TARGETS = ["QclibModel.Props.C04", "QclibModel.Props.C04U2"]
@@ -84,6 +85,24 @@ RULE = ("tie: (class, matrix family, k, ctrl_state) tuples whose flattened defin
         "oracle: Operator(definition) vs reference controlled-U for distinct (class, family, k, ctrl_state); non-trivial = "
         "k>=2 and U != I")
 DRIVER = "Drivers/C04.lean"
+
+# Generator-quality audit (tools/branch_audit.py C04): items of the anchored files that the generated inputs do not
+# reach, and why that is acceptable for this property.
+UNREACHED_JUSTIFIED = {
+    "qclib/gates/ldmcsu.py:318": "LdMcSpecialUnitary raise for a matrix outside SU(2): invalid input, rejection is C16's property (probed there)",
+    "qclib/gates/util.py:44": "check_u2 raise for a non-2x2 matrix: invalid input, C16",
+    "qclib/gates/util.py:48": "check_u2 raise for a non-unitary matrix: invalid input, C16",
+    "qclib/gates/multitargetmcsu2.py:136->145": "general_su2_optimization=True is never passed: _define calls "
+                                                "clinear_depth_mcv() with the default; no entry point sets it",
+    "qclib/gates/mcx.py:96->exit": "toffoli_multi_target is only called with side in ('l', 'r', None): the implicit "
+                                   "fall-through of the elif chain is dead",
+    "qclib/gates/mcx.py:160->exit": "the action-part loop always leaves through the `break` at i = num_ctrl - 2; it is "
+                                    "never exhausted (the chain branch needs num_ctrl >= 3)",
+    "qclib/gates/mcx.py:211 mcx_vchain_dirty": "static helper of the MCX gates: C05/C15 (known finding K-C15-2: it passes "
+                                               "its arguments to the constructor in the wrong positions)",
+    "qclib/gates/mcx.py:329 mcx": "static helper of LinearMcx: C05/C15 (known finding K-C15-1: appends a k+2-qubit gate "
+                                  "to k+1 qubits)",
+}
 
 TOL = 1e-7
 I2 = np.eye(2, dtype=complex)
@@ -137,6 +156,15 @@ def families(r):
         "-iY": -1j * PY, "RZpi": rz(math.pi), "RYpi": ry(math.pi), "RXpi": rx(math.pi), "iH": 1j * HAD,
         "RY": ry(ang()), "RZ": rz(ang()), "RX": rx(ang()), "haar": haar_su2(r), "haar2": haar_su2(r),
     }
+    # rotations about an axis in the XZ plane: complex main diagonal, imaginary secondary diagonal -> eigenbasis path of
+    # Ldmcsu, and the eigenvector matrix is REAL (np.linalg.eig returns it with or without float dust in the imaginary
+    # parts): the real-secondary-diagonal branch of `_get_x_z(eig_vecs)`.  iH above is the member (1,0,1)/sqrt2, angle pi.
+    for nm in ("RXZ", "RXZ2"):
+        ax, th = r.uniform(0.0, 2 * math.pi), ang()
+        while min(abs(math.cos(ax)), abs(math.sin(ax))) < 0.05:
+            ax = r.uniform(0.0, 2 * math.pi)
+        f[nm] = math.cos(th / 2) * I2 - 1j * math.sin(th / 2) * (math.cos(ax) * PX + math.sin(ax) * PZ)
+    f["RXZ-3-4-5"] = 0.6 * I2 - 0.8j * (0.6 * PX + 0.8 * PZ)
     h = haar_su2(r)
     a, b = abs(h[0, 0]), h[1, 0]
     f["main-real"] = np.array([[a, -np.conj(b)], [b, a]])            # real main diagonal, complex secondary: H sandwich
@@ -148,9 +176,27 @@ def families(r):
     return f
 
 
+IMAG_TOL = 1e-12      # abs_tol of the code's `isclose(x.imag, 0.0, abs_tol=1e-12)` branch tests (ldmcsu.py, multitargetmcsu2.py)
+
+
+def _real(x):
+    return abs(x.imag) <= IMAG_TOL
+
+
 def is_real_diag_type(u):
-    """main or secondary diagonal exactly real (the matrices MultiTargetMCSU2 is defined for)."""
-    return (u[0, 0].imag == 0 and u[1, 1].imag == 0) or (u[0, 1].imag == 0 and u[1, 0].imag == 0)
+    """main or secondary diagonal real up to the code's tolerance (the matrices MultiTargetMCSU2 is defined for)."""
+    return (_real(u[0, 0]) and _real(u[1, 1])) or (_real(u[0, 1]) and _real(u[1, 0]))
+
+
+def dusty(u, eps=1e-17):
+    """`u` with imaginary float dust on all four entries: what u2_to_su2(e^{ia} u) returns for a real rotation u.  Both
+    diagonals are real only up to the tolerance: the `abs_tol` side of the branch tests."""
+    d = np.array(u, dtype=complex)
+    d[0, 0] += eps * 1j
+    d[1, 1] -= eps * 1j
+    d[0, 1] += eps * 1j
+    d[1, 0] += eps * 1j
+    return d
 
 
 def region(cls, us, k):
@@ -164,7 +210,7 @@ def region(cls, us, k):
                 tags.append("general-su2")
             continue
         # (x, z) as _get_x_z computes them
-        if u[0, 1].imag == 0 and u[1, 0].imag == 0:
+        if _real(u[0, 1]) and _real(u[1, 0]):
             x, z = u[0, 1].real, u[1, 1]
         else:
             x, z = -u[0, 1].real, u[1, 1] - 1j * u[0, 1].imag
@@ -488,9 +534,19 @@ def probes(ctx):
         for cs in (None, "0"):
             cases.append(("MultiTargetMCSU2", fam, [u], 1, cs, True))
     cases.append(("MultiTargetMCSU2", "RY0.7+RZ0.4", [ry(0.7), rz(0.4)], 1, "1", True))
+    # imaginary parts at rounding level (|Im| <= 1e-12) count as zero in the branch tests: the tolerance side of the
+    # comparison, for the plain branch (secondary diagonal real), the H sandwich (main real) and a matrix just outside
+    for fam, u in (("RY0.5+dust1e-17", dusty(ry(0.5))), ("RX1.1+dust1e-14", dusty(rx(1.1), 1e-14)),
+                   ("RZ0.9+dust1e-13", dusty(rz(0.9), 1e-13)), ("RY0.5+imag1e-9", dusty(ry(0.5), 1e-9))):
+        ctx.count("branch:imag within abs_tol" if "dust" in fam else "branch:imag just outside abs_tol")
+        cases.append(("Ldmcsu", fam, [u], 2, None, True))
+        cases.append(("Ldmcsu", fam, [u], 3, "010", True))
+        if "dust" in fam:
+            cases.append(("MultiTargetMCSU2", fam + "+RZ0.4", [u, rz(0.4)], 3, "011", True))
     run_cases(ctx, cases)
     single_unitary_probe(ctx)
     static_helper_probe(ctx)
+    entry_point_probes(ctx)
 
 
 def static_helper_probe(ctx):
@@ -523,6 +579,77 @@ def static_helper_probe(ctx):
                      f"max |Operator - controlled-U with pattern {cs}| = {err:.3e}", dict(rep, observed_err=err))
         else:
             ctx.ok(f"MultiTargetMCSU2:static-helper:ok:{tag}")
+
+
+def entry_point_probes(ctx):
+    """Branches of ldmcsu.py that no class-level case takes (generator-quality audit):
+    * the static `Ldmcsu.ldmcsu` / `LdMcSpecialUnitary.ldmcsu(circuit, unitary, controls, target, ctrl_state)` with
+      `controls` a list of qubits and a QuantumRegister, default and explicit pattern: tied to the model of the class and
+      compared with the reference;
+    * `LdMcSpecialUnitary(U, 0)`: the explicit `num_controls == 0` branch (`control_qubits = []`, definition = U on the
+      target).  Oracle only: the model starts at one control."""
+    from qclib.gates.ldmcsu import Ldmcsu, LdMcSpecialUnitary
+    from qiskit import QuantumCircuit, QuantumRegister
+    from qiskit.quantum_info import Operator
+    r = ctx.rng
+    fams = families(r)
+    picks = [("Ldmcsu", "RY", 2), ("Ldmcsu", "haar", 3), ("Ldmcsu", "main-real", 3), ("Ldmcsu", "iX", 1),
+             ("Ldmcsu", r.choice(list(fams)), 4), ("LdMcSpecialUnitary", "haar", 2), ("LdMcSpecialUnitary", "RZ", 3),
+             ("LdMcSpecialUnitary", r.choice(list(fams)), 4), ("LdMcSpecialUnitary", "haar2", 6)]
+    for i, (cls, fam, k) in enumerate(picks):
+        u = fams[fam]
+        cs = None if i % 2 == 0 else "".join(r.choice("01") for _ in range(k))
+        as_register = i % 2 == 1
+        helper = Ldmcsu.ldmcsu if cls == "Ldmcsu" else LdMcSpecialUnitary.ldmcsu
+        tag = f"{fam}:k={k}:cs={cs}:{'register' if as_register else 'list'}"
+        rep = {"part": "su2", "probe": "entry-points", "cls": cls + ".ldmcsu", "family": fam, "k": k, "ctrl_state": cs,
+               "unitaries": [mflat(u)]}
+        try:
+            with warnings.catch_warnings():
+                warnings.simplefilter("ignore")
+                if as_register:
+                    qr, tr = QuantumRegister(k), QuantumRegister(1)
+                    qc = QuantumCircuit(qr, tr)
+                    helper(qc, u, qr, tr[0], ctrl_state=cs)
+                else:
+                    qc = QuantumCircuit(k + 1)
+                    helper(qc, u, list(qc.qubits[:k]), qc.qubits[k], cs)
+                lines = skeleton(cls, qc, k)
+                opm = Operator(qc).data
+        except Exception as e:
+            ctx.fail(f"{cls}.ldmcsu:static:raises-{type(e).__name__}:{tag}",
+                     f"{cls}.ldmcsu(circuit, {fam}, {k} controls, target, ctrl_state={cs!r}) raised "
+                     f"{type(e).__name__}: {str(e)[:160]}", rep)
+            continue
+        ctx.count(f"branch:{cls}.ldmcsu:static:" + ("register" if as_register else "list"))
+        ctx.tie(tie_op(cls, [u], k, cs), lines, label=f"{cls}.ldmcsu static {tag}")
+        err = float(np.abs(opm - ref_matrix([u], k, cs)).max())
+        if not err <= TOL:
+            ctx.fail(f"{cls}.ldmcsu:static:operator-mismatch:{tag}",
+                     f"max |Operator(circuit) - reference controlled-U| = {err:.3e}", dict(rep, observed_err=err))
+        else:
+            ctx.ok(f"{cls}.ldmcsu:static:ok:{tag}", nontrivial=k >= 2)
+    for fam in ("RY", "haar", "-I"):
+        u = fams[fam]
+        rep = {"part": "su2", "probe": "entry-points", "cls": "LdMcSpecialUnitary", "family": fam, "k": 0,
+               "unitaries": [mflat(u)]}
+        ctx.count("branch:LdMcSpecialUnitary:k=0")
+        try:
+            with warnings.catch_warnings():
+                warnings.simplefilter("ignore")
+                defn = LdMcSpecialUnitary(u, 0).definition
+                opm = Operator(defn).data
+        except Exception as e:
+            ctx.fail(f"LdMcSpecialUnitary:k=0:raises-{type(e).__name__}",
+                     f"LdMcSpecialUnitary({fam}, 0).definition raised {type(e).__name__}: {str(e)[:160]} (the explicit "
+                     f"zero-control branch of _define)", rep)
+            continue
+        err = float(np.abs(opm - u).max()) if opm.shape == (2, 2) else float("inf")
+        if not err <= TOL:
+            ctx.fail(f"LdMcSpecialUnitary:k=0:operator-mismatch:{fam}", f"max |Operator(definition) - U| = {err:.3e}",
+                     dict(rep, observed_err=err))
+        else:
+            ctx.ok(f"LdMcSpecialUnitary:k=0:ok:{fam}", nontrivial=False)
 
 
 def single_unitary_probe(ctx):
@@ -611,6 +738,9 @@ def run(ctx, scale=0):
                      "SU(2) the code raises ValueError (no eigenbasis path) - outside the property ('each listed rotation').")
     ctx.notes.append("random rotation angles stay 0.05 away from multiples of pi; exact multiples are fixed family members; the "
                      "neighbourhood of -I reached by real rotations (RY(2pi -+ 1e-6)) is probed separately.")
+    ctx.notes.append("zero controls (outside the quantifier 1..K): only the classes with an explicit num_controls == 0 branch are "
+                     "probed there (LdMcSpecialUnitary, MCU; Ldmcu/Mcg are tied from k=0).  Ldmcsu(U, 0) and "
+                     "MultiTargetMCSU2(., 0) have no such branch and build a one-qubit circuit that is not U - not generated.")
     intermediates(ctx)
     quick = ctx.quick and not scale
     slices_tie(ctx, 9 if quick else 12)
@@ -667,6 +797,9 @@ def replay(ctx, payload):
         return
     if r.get("probe") == "static-helper":
         static_helper_probe(ctx)
+        return
+    if r.get("probe") == "entry-points":
+        entry_point_probes(ctx)
         return
     if r.get("call") == "Ldmcsu._compute_gate_a":
         intermediates(ctx)
